@@ -330,6 +330,13 @@ class _RawConfigParser(configparser.RawConfigParser):
     option = "".join(option.split())
     return option
 
+  def get(self, section, option, **kwargs):
+    """As RawConfigParser.get() but reports ${...} place-holders that cannot be resolved as ConfigParserException"""
+    try:
+      return super(_RawConfigParser, self).get(section, option, **kwargs)
+    except configparser.InterpolationError as e:
+      raise ConfigParserException(str(e))
+
   def options(self, section):
     """Return the options set in `section` itself. The entries of the default section ([Variables])
     remain available to ${...} interpolation but are not members of every other section."""
@@ -388,6 +395,9 @@ class ConfigParser(object):
       cp.read_file(fp)
     except (configparser.DuplicateOptionError, configparser.DuplicateSectionError) as e:
       raise ConfigParserDuplicateEntryException(e.message)
+    except configparser.Error as e:
+      # Text that is not an INI file: no section header, a line without delimiter...
+      raise ConfigParserException("Could not read potential definition: {}".format(e))
 
     # Process overrides
     for override in overrides:
